@@ -2,6 +2,7 @@ import MoPepGen.Lemmas.Coord
 import MoPepGen.Lemmas.Seq
 import MoPepGen.Lemmas.Cache
 import MoPepGen.Lemmas.Gtf
+import MoPepGen.Lemmas.GtfClosed
 /-!
 # C11 — reference model: coordinates and sequences are mutually consistent
 
@@ -742,6 +743,135 @@ theorem gtf_roundtrip_preserves_orf_sec (a : Anno) (h : a.wf = true) :
   obtain ⟨m, m', hm, hm', he⟩ := h4 g hg tid ht
   obtain ⟨c1, _, _, _, c5, c6, c7, c8, _⟩ := gtf_normal_form_determines_coordinates m m' he
   exact ⟨m, m', hm, hm', c1, c5, c6, c7, c8⟩
+
+/-! ### Closure of the round trip
+
+`reload a` = `dump_gtf (write a)` as one function (`Model/Gtf.lean`).  For a well-formed `a` it
+is `reloaded a`: genes unchanged, transcripts dict re-listed gene by gene, every transcript
+model rebuilt by `add_record` / `sort_records` from its own block (`reload_eq`).
+
+**Full statement (`gtf_roundtrip_closed`, NOT proved in full):**
+`∀ a, a.wf → ∃ r, reload a = .ok r ∧ r.wf ∧ r.ordered ∧ r.stable`.
+Proved below:
+* `r.ordered`, `r.genes = a.genes`, every gene-level clause of `r.wf` — for every `a.wf`
+  (`gtf_roundtrip_closed_ordered`, and inside `gtf_roundtrip_closed_of_tx`);
+* the whole statement for every `a.wf` with `a.stable` (`gtf_roundtrip_closed_partial`; then
+  `r = a.canon`, immediate from `gtf_roundtrip_exact` plus the closure of `canon`);
+* the whole statement for every `a.wf`, given the per-transcript fact that the block of a
+  well-formed transcript model reloads to a well-formed, stable model
+  (`gtf_roundtrip_closed_of_tx`).
+Missing: that per-transcript fact for models that are not yet stable (a freshly loaded ENSEMBL
+file, whose `protein_id` spreads from the CDS records to the records written after them on the
+first round trip).  It needs (i) the key loop of `add_record` is idempotent on its own output,
+(ii) `write` lists the rebuilt model's records in the order they were read (`sorted(cds + exon)`
+of the two filtered halves of a stably sorted list is that list).  It is compared per input by
+the stream `gtfclosed` (the driver decides the three predicates on the model's reload of every
+generated annotation; they are evaluated on the real reloaded objects). -/
+
+set_option maxRecDepth 100000 in
+/-- non-vacuity: the example (well-formed, ordered, NOT stable) reloads to a closed annotation -/
+example : (reload gtfEx).map Anno.closed = .ok true := by decide
+
+/-- **Closure, order part.**  For every well-formed annotation the round trip succeeds, keeps
+the gene dict, lists the transcripts dict gene by gene (`ordered`), and is the original in the
+normal form. -/
+theorem gtf_roundtrip_closed_ordered (a : Anno) (h : a.wf = true) :
+    ∃ r, reload a = .ok r ∧ r.ordered = true ∧ r.genes = a.genes ∧
+      r.erase = a.canon.erase := by
+  refine ⟨reloaded a, reload_eq h, reloaded_ordered h, rfl, ?_⟩
+  obtain ⟨ls, a', h1, h2, h3⟩ := gtf_roundtrip a h
+  have := reload_eq h
+  simp only [reload, h1, h2, Except.ok.injEq] at this
+  rw [← this]; exact h3
+
+/-- **Closure, reduced to one transcript.**  For every well-formed annotation: if the block of
+every well-formed transcript model reloads (`reloadTx`: `write` of the block, `add_record`,
+`sort_records`) to a well-formed and stable model, then the reloaded annotation satisfies all
+three hypotheses again. -/
+theorem gtf_roundtrip_closed_of_tx (a : Anno) (h : a.wf = true)
+    (H : ∀ gid tid m, TxModel.wf gid tid m = true →
+      (reloadTx m).wf gid tid = true ∧ (reloadTx m).stable = true) :
+    ∃ r, reload a = .ok r ∧ r.wf = true ∧ r.ordered = true ∧ r.stable = true :=
+  ⟨reloaded a, reload_eq h, reloaded_closed_of_tx h H⟩
+
+/-- **Closure for stable annotations** (everything that went through one round trip in the
+real code, see the stream `gtfwf1`): for every well-formed and stable annotation the reloaded
+annotation is again well-formed, ordered and stable.  (`_partial`: the full statement drops
+`a.stable`, see the section header.) -/
+theorem gtf_roundtrip_closed_partial (a : Anno) (h : a.wf = true) (hs : a.stable = true) :
+    ∃ r, reload a = .ok r ∧ r.wf = true ∧ r.ordered = true ∧ r.stable = true := by
+  have hst : ∀ kv ∈ a.txs, kv.2.stable = true := by simpa [Anno.stable] using hs
+  have hreq : ∀ g ∈ a.genes, ∀ tid ∈ g.2.transcripts, ∀ m, dictGet a.txs tid = some m →
+      reloadTx m = m := by
+    intro g hg tid ht m hm
+    obtain ⟨m', hm', hw⟩ := Anno.wf_tx h hg ht
+    rw [hm] at hm'; cases hm'
+    exact reloadTx_of_stable hw (hst _ (mem_keys_of_dictGet hm))
+  -- the per-transcript fact holds for the models of `a`; `reloaded_closed_of_tx` asks it of
+  -- every model, so go through its two halves directly
+  refine ⟨reloaded a, reload_eq h, ?_⟩
+  obtain ⟨h1, h2, _⟩ := Anno.wf_iff h
+  have hgen := h
+  simp only [Anno.wf, Bool.and_eq_true, decide_eq_true_eq, List.all_eq_true] at hgen
+  refine ⟨?_, reloaded_ordered h, ?_⟩
+  · simp only [Anno.wf, Bool.and_eq_true, decide_eq_true_eq, List.all_eq_true]
+    refine ⟨⟨h1, h2⟩, fun g hg => ⟨(hgen.2 g hg).1, fun tid ht => ?_⟩⟩
+    obtain ⟨m, hm, hw, hr⟩ := dictGet_reloaded h hg ht
+    rw [hr, hreq g hg tid ht m hm]
+    exact hw
+  · simp only [Anno.stable, List.all_eq_true]
+    intro kv hkv
+    simp only [reloaded, List.mem_map] at hkv
+    obtain ⟨kv0, hkv0, rfl⟩ := hkv
+    rw [canon_txs] at hkv0
+    simp only [canonTxs, List.mem_flatMap, List.mem_filterMap] at hkv0
+    obtain ⟨g, hg, tid, ht, hk⟩ := hkv0
+    obtain ⟨m, hm, _⟩ := Anno.wf_tx h hg ht
+    rw [hm] at hk
+    simp only [Option.map_some, Option.some.injEq] at hk
+    subst hk
+    simp only [hreq g hg tid ht m hm]
+    exact hst _ (mem_keys_of_dictGet hm)
+
+/-- **A closed annotation is a fixed point of the round trip**: for every annotation that is
+well-formed, ordered and stable, `dump_gtf (write r)` is `r` itself, all attribute dicts and the
+order of both dicts included. -/
+theorem gtf_roundtrip_fixed_point (r : Anno) (h : r.wf = true) (ho : r.ordered = true)
+    (hs : r.stable = true) : reload r = .ok r := by
+  obtain ⟨ls, hw, hp⟩ := gtf_roundtrip_exact r h hs
+  have : r.canon = r := by simpa [Anno.ordered] using ho
+  simp only [reload, hw, hp, this]
+
+/-- **Idempotence.**  Full statement (NOT proved in full): `∀ a, a.wf → ∃ r, reload a = .ok r ∧
+reload r = .ok r` (write∘parse∘write∘parse = write∘parse) and the text written from `r` is a
+fixed point (`writeGtf r' = writeGtf r` for `reload r = .ok r'`; trivial once `r' = r`).  It
+follows from the full closure statement by `gtf_roundtrip_fixed_point`; proved here for every
+well-formed and STABLE `a`, where moreover the written text is already a fixed point:
+`writeGtf r = writeGtf a`.  Without `a.stable` the text written from `r` differs from the text
+written from `a` in the attribute columns of the sub-records (the ids `add_record` copied; on
+the example `gtfEx`, below), so `writeGtf (reload a) = writeGtf a` does not hold in general. -/
+theorem gtf_roundtrip_idempotent_partial (a : Anno) (h : a.wf = true) (hs : a.stable = true) :
+    ∃ r, reload a = .ok r ∧ reload r = .ok r ∧ writeGtf r = writeGtf a := by
+  obtain ⟨r, hr, c1, c2, c3⟩ := gtf_roundtrip_closed_partial a h hs
+  refine ⟨r, hr, gtf_roundtrip_fixed_point r c1 c2 c3, ?_⟩
+  obtain ⟨ls, hw, hp⟩ := gtf_roundtrip_exact a h hs
+  simp only [reload, hw, hp, Except.ok.injEq] at hr
+  rw [← hr]; exact writeGtf_canon h
+
+/-- idempotence from closure, for every well-formed annotation whose reload is closed (the
+conclusion of the full closure statement as a decidable hypothesis `Anno.closed`) -/
+theorem gtf_roundtrip_idempotent_of_closed (a r : Anno) (hr : reload a = .ok r)
+    (hc : r.closed = true) : reload r = .ok r ∧ ∀ r', reload r = .ok r' → writeGtf r' = writeGtf r := by
+  simp only [Anno.closed, Bool.and_eq_true] at hc
+  have := gtf_roundtrip_fixed_point r hc.1.1 hc.1.2 hc.2
+  refine ⟨this, fun r' h' => ?_⟩
+  rw [this] at h'; cases h'; rfl
+
+set_option maxRecDepth 100000 in
+/-- on the (unstable) example the first written text is NOT a fixed point, the second is -/
+example : (match reload gtfEx with
+    | .ok r => (decide (writeGtf r = writeGtf gtfEx), decide (reload r = .ok r))
+    | .error _ => (false, false)) = (false, true) := by decide
 
 end GtfCodec
 
